@@ -516,6 +516,11 @@ class F:
             r = x * y
         else:
             if y == 0:
+                # the real code divides by exactly zero on this path (inf / NaN): report it as a failed definedness goal (confirmed or
+                # not by the float replay), then stop following the path
+                hh = Ctx.cur.meta.get('h')
+                if hh is not None:
+                    hh.fail(f"finite:nonzero@{_where()}", "division by a literal zero on a feasible path")
                 raise Inconclusive("division by literal zero")
             Ctx.cur.oblig.append(('nonzero', F(y), _where()))
             r = x / y
